@@ -29,7 +29,10 @@ open LolHtml LolHtml.Model LolHtml.Model.TagStates LolHtml.Spec.Attrs
 
 /-- **Side-condition on the current code**: the tag / attribute states of the generated table are the
 ones the proofs were made for. If this fails after a change to `syntax/tag/*.rs`,
-`#eval tagStatesWitness Gen.Syntax.table` names the state and the first differing arm. -/
+`#eval tagStatesWitness Gen.Syntax.table` names the state and the first input class (`2·byte`, `+1` when the byte is
+the closing quote, 512 / 513 = end of input on a last / non-last slice) that resolves to a different arm, or 1000
+(enter actions / memchr needle) / 3000 (sequence arms) / 2000 (missing state, byte classes). The comparison is by
+RESOLUTION (`Lemmas/ArmResolve.lean`): reordering arms with disjoint patterns does not affect it. -/
 theorem tagStates_gen : TagStatesOk Gen.Syntax.table = true := by decide +kernel
 
 theorem tagStatesWitness_gen : tagStatesWitness Gen.Syntax.table = [] := by decide +kernel
@@ -39,9 +42,7 @@ C03, before its repair) in `--> data_state`; the proofs accept both -/
 theorem trans36_cases (t : Table) : trans36 t = .gotoDyn ∨ trans36 t = .goto t.dataState := by
   unfold trans36
   split
-  · split
-    · exact Or.inl rfl
-    · exact Or.inr rfl
+  · exact Or.inl rfl
   · exact Or.inr rfl
 
 variable {κ : Type}
